@@ -301,6 +301,20 @@ def _direct_bernoulli(spec, ctx, cc):
         xt, pt = torch.tensor(x, dtype=dx), torch.tensor(p, dtype=dp)
         if ((pt <= 0) | (pt >= 1)).any():  # float32 rounding of 1-1e-12: keep p strictly inside (0,1) (the documented support)
             pt = pt.clamp(min=1e-30, max=float(np.nextafter(np.float32(1), np.float32(0))) if dp == torch.float32 else 1 - 1e-16)
+        # saturated predictions: a float32 logistic returns EXACTLY 1.0 (0.0) once |logit| > ~17 (fast progressor, long follow-up).  With a
+        # matching outcome the exact density is 0: the monitor requires a finite value <= 1e-6 there (mismatching outcome: +inf, not judged)
+        if len(ps) == len(xs) and len(xs) and i % 5 == 0:
+            k = int(r.integers(1, 4))
+            idx = r.integers(0, pt.numel(), size=k)
+            flat_p, flat_x = pt.reshape(-1).clone(), xt.reshape(-1).clone()
+            for j in idx:
+                side = float(r.integers(2))
+                flat_p[int(j)] = side
+                flat_x[int(j)] = side if r.random() < 0.8 else 1.0 - side
+            pt, xt = flat_p.reshape(pt.shape), flat_x.reshape(xt.shape)
+            x = xt.double().numpy()
+            specials = specials + [-1.0]  # marker: exactly saturated probability present
+            ctx.count("bernoulli_exactly_saturated_cases")
         wmode = str(r.choice(["none", "mask"])) if len(xs) else "none"
         w = None if wmode == "none" else torch.tensor(r.random(xs) < 0.7)
         case = {"index": i, "family": "bernoulli", "layout": layout, "dtype": dmode, "specials": specials, "weights": wmode,
